@@ -67,6 +67,21 @@ func generate(w *mon.W) {
 		c := &Case{Twin: twin, Planted: planted, Plant: kind, Path: path}
 		w.Do("p|"+Print(planted, Layout{Mode: 0}).Src, func(r *mon.R) { Check(c, r) })
 	}
+	// wide valid programs must compile (those whose built-ins have the right arity)
+	for _, kind := range gen.WideKinds {
+		if kind == "statements" || kind == "not-nest" {
+			continue
+		}
+		for _, n := range gen.WideSizes {
+			twin := gen.Wide(kind, n)
+			planted, path := plant(gen.CloneProgram(twin), []string{"arity", "leftright", "rowcount", "two-queries"}[n%4], rng)
+			if planted == nil {
+				continue
+			}
+			c := &Case{Twin: twin, Planted: planted, Plant: "wide", Path: path}
+			w.Do(fmt.Sprint("wide|", kind, "|", n), func(r *mon.R) { Check(c, r) })
+		}
+	}
 	// (i) either/or on hostile inputs
 	do := func(s string, pm int) {
 		ms := mon.Str(s)
